@@ -11,6 +11,7 @@ import (
 	"testing"
 	"time"
 
+	"github.com/ipni/go-libipni/dagsync"
 	"github.com/ipni/go-libipni/verifshim/vsched"
 
 	"verifharness/sched"
@@ -214,6 +215,36 @@ func twoExplicitVsClose() *sched.Scenario {
 	}
 }
 
+// K8: announce-triggered syncs of two publishers under a limit of one at a time
+// || Close: one sync holds the only slot (its block request is a scheduling
+// point), the other waits for it when Close cancels. Whatever the order, Close
+// returns and nothing the subscriber started is left behind.
+func limitedAnnouncesVsClose() *sched.Scenario {
+	name := "K8-two-publishers-limit1-announces-vs-close"
+	return &sched.Scenario{Name: name,
+		Setup: func(e *sched.Exec) ([]sched.Thread, func()) {
+			w := schedfx.New(e, schedfx.Options{Pubs: 2, ChainLen: 2, Announce: true, SubOpts: []dagsync.Option{dagsync.MaxAsyncConcurrency(1)}})
+			var ths []sched.Thread
+			for pi := range w.Pubs {
+				pi := pi
+				tn := fmt.Sprintf("A%d", pi)
+				ths = append(ths, sched.Thread{Name: tn, Fn: func() {
+					e.Log("%s call Announce", tn)
+					err := w.Sub.Announce(context.Background(), w.Chains[pi].Cids[1], w.Pubs[pi].AddrInfo())
+					e.Log("%s ret Announce err=%v", tn, err)
+				}})
+			}
+			ths = append(ths, closeThread(e, w, "C1"))
+			return ths, finish(e, w)
+		},
+		Check: func(e *sched.Exec) []sched.Finding {
+			out := common(e, name, []string{"A0", "A1", "C1"})
+			e.Class = fmt.Sprintf("leaked=%d", len(e.Leaked))
+			return out
+		},
+	}
+}
+
 // K2: announce-triggered sync || Close
 func announceVsClose() *sched.Scenario {
 	name := "K2-announce-sync-vs-close"
@@ -394,7 +425,7 @@ func postClose(call string) *sched.Scenario {
 
 func TestCheck(t *testing.T) {
 	r := vp.New("C15", "model_checking",
-		"scenarios on the real subscriber built with the instrumentation overlay (gated in-memory publisher, chain of 2-3 signed ads): K1 explicit sync (queried head) || Close, with one and with two concurrent Close callers; K7 explicit syncs of two publishers || Close; K2 announce-triggered sync || Close; K6 two announcements of one publisher and Close with every block already local, the first sync held in its block hook until nothing else can move (a sync still pending when Close cancels must be abandoned); K3 listener registration and cancellation || Close; K5 each of 11 entry points called after Close has returned. All interleavings at the scheduling points (locks, atomics, channel operations, selects, spawns, requests, hook calls, observations) up to the preemption bound, so Close starts at every point of a sync. 'Blocks forever' is decided by quiescence with the caller not finished. states = distinct decision states; transitions = scheduling steps; traces = executions of the real code.",
+		"scenarios on the real subscriber built with the instrumentation overlay (gated in-memory publisher, chain of 2-3 signed ads): K1 explicit sync (queried head) || Close, with one and with two concurrent Close callers; K7 explicit syncs of two publishers || Close; K8 announce-triggered syncs of two publishers under a limit of one at a time || Close; K2 announce-triggered sync || Close; K6 two announcements of one publisher and Close with every block already local, the first sync held in its block hook until nothing else can move (a sync still pending when Close cancels must be abandoned); K3 listener registration and cancellation || Close; K5 each of 11 entry points called after Close has returned. All interleavings at the scheduling points (locks, atomics, channel operations, selects, spawns, requests, hook calls, observations) up to the preemption bound, so Close starts at every point of a sync. 'Blocks forever' is decided by quiescence with the caller not finished. states = distinct decision states; transitions = scheduling steps; traces = executions of the real code.",
 		"cooperative scheduling at synchronization operations; priority selects in source order; one publisher",
 		"goroutine leak = a goroutine of the bubble with a go-libipni frame after Close and cleanup",
 	)
@@ -407,7 +438,7 @@ func TestCheck(t *testing.T) {
 	if vp.Thorough() {
 		bound = 3
 	}
-	scs := []*sched.Scenario{pendingAnnounceVsClose(), twoExplicitVsClose(), explicitVsClose(1), explicitVsClose(2), announceVsClose(), listenerVsClose()}
+	scs := []*sched.Scenario{pendingAnnounceVsClose(), twoExplicitVsClose(), limitedAnnouncesVsClose(), explicitVsClose(1), explicitVsClose(2), announceVsClose(), listenerVsClose()}
 	for _, c := range []string{"SyncAdChain", "SyncEntries", "SyncOneEntry", "SyncHAMTEntries", "Announce", "OnSyncFinished", "GetLatestSync", "SetLatestSync", "RemoveHandler", "HttpPeerStore", "Close"} {
 		scs = append(scs, postClose(c))
 	}
